@@ -7,6 +7,8 @@ import J2M.Proofs.Union
 import J2M.Proofs.OptimizeIdem
 import J2M.Proofs.OptimizeNF
 import J2M.Proofs.OptimizeErr
+import J2M.Proofs.OptimizeNFC
+import J2M.Proofs.OptimizeFuel
 namespace J2M.C08
 open J2M J2M.C08P
 
@@ -188,16 +190,95 @@ theorem optimize_total_partial (cfg : GenCfg) (e : EqEnv) (fuel : Nat) (t : Ty) 
   optimize_errors_raw cfg e fuel t err hr h
 
 /-- part 2: with an acyclic registry `StopIteration` is impossible too (`resolve` terminates within its fuel
-    and returns a non-empty set — both proved). What is NOT proved: that `Ty.fuelFor t` is always enough fuel,
-    and `RecursionError` depends on the environment `e` (its `==` fuel). -/
+    and returns a non-empty set — both proved). -/
 theorem optimize_total_partial_ranked (cfg : GenCfg) (e : EqEnv) (hreg : RegRanked cfg.reg) (fuel : Nat)
     (t : Ty) (err : PyErr) (hr : Raw cfg t = true) (h : optimize cfg e fuel t = .error err) :
     err = .outOfFuel ∨ err = .recursion :=
   optimize_errors_ranked cfg e hreg fuel t err hr h
 
+/-- part 3: the fuel `generate` passes (`Ty.fuelFor t = 10 * size t + 10`; anything `≥ 4 * size t + 4`) is
+    always enough on raw metadata: `optimize` never reports out-of-fuel (no hypothesis on the registry or `e`). -/
+theorem optimize_fuel_ok (cfg : GenCfg) (e : EqEnv) (t : Ty) (hr : Raw cfg t = true) (fuel : Nat)
+    (hf : 4 * t.size + 4 ≤ fuel) : optimize cfg e fuel t ≠ .error .outOfFuel :=
+  C08P.optimize_fuel_ok cfg e t hr fuel hf
+
+/-- `optimize_total_partial`, assembled: with an acyclic registry the first pass on raw metadata either returns
+    a type (which is then in normal form by `optimize_nf`) or fails with the `RecursionError` that `==` on deep
+    metadata raises inside `merge_field_sets` (it depends on the environment's `==` fuel, i.e. on Python's
+    recursion limit). That last alternative is all that separates this from `optimize_total_Statement`. -/
+theorem optimize_total_partial_assembled (cfg : GenCfg) (e : EqEnv) (hreg : RegRanked cfg.reg) (t : Ty)
+    (hr : Raw cfg t = true) :
+    (∃ t', optimize cfg e (Ty.fuelFor t) t = .ok t') ∨
+      optimize cfg e (Ty.fuelFor t) t = .error .recursion :=
+  optimize_total_ranked cfg e hreg t hr
+
 /-- non-vacuity: the example registry is ranked -/
 example : RegRanked exCfg.reg :=
   ⟨fun s => if s = "IntString" then 0 else 1, by
     intro a b h; simp [exCfg] at h; obtain ⟨rfl, rfl⟩ := h; simp⟩
+
+/-! ## 5. The first pass lands in the *canonical* normal form, so the second pass is the identity
+
+Extra input conditions `rawK` (all true for what the Python code builds): a non-overflowed `StringLiteral`
+is sorted and duplicate-free (`litStable`: the model keeps a Python `set` as a sorted list), and dict keys
+are distinct. `keysOk` is the corresponding condition on the JSON sample. -/
+
+/-- `_detect_type` on a JSON value with distinct keys gives `rawK` metadata -/
+theorem detect_rawK (cfg : GenCfg) (o : GenOracles) (cd : Bool) (v : Json) (t : Ty)
+    (hv : keysOk v = true) (h : detect cfg o cd v = .ok t) : rawK cfg t = true :=
+  C08P.detect_rawK cfg o cd v t hv h
+
+/-- **C08, canonical version**: the result of `optimize_type` on raw metadata is a canonical normal form -/
+theorem optimize_nfc (cfg : GenCfg) (e : EqEnv) (fuel : Nat) (t t' : Ty)
+    (hr : Raw cfg t = true) (hk : rawK cfg t = true) (h : optimize cfg e fuel t = .ok t') :
+    nfc cfg t' = true :=
+  optimize_nfc_raw cfg e fuel t t' hr hk h
+
+/-- **C08, stability**: whatever the first pass returns on raw metadata, every further pass (with any
+    comparison environment, any sufficient fuel) returns exactly the same term and does not fail. -/
+theorem optimize_twice (cfg : GenCfg) (e e' : EqEnv) (fuel fuel' : Nat) (t t' : Ty)
+    (hr : Raw cfg t = true) (hk : rawK cfg t = true) (h : optimize cfg e fuel t = .ok t')
+    (hf : 4 * t'.size ≤ fuel') : optimize cfg e' fuel' t' = .ok t' :=
+  optimize_idem cfg e' t' (optimize_nfc cfg e fuel t t' hr hk h) fuel' hf
+
+/-- for the whole generator stage: the metadata `generate` returns for JSON samples (with distinct keys)
+    is a canonical normal form … -/
+theorem generate_nfc (cfg : GenCfg) (o : GenOracles) (samples : List Json) (t : Ty)
+    (hs : ∀ v ∈ samples, keysOk v = true) (h : generate cfg o samples = .ok t) : nfc cfg t = true :=
+  generate_nfc_aux hs h
+
+/-- … and simplifying it again changes nothing and never fails -/
+theorem generate_second_pass (cfg : GenCfg) (o : GenOracles) (e : EqEnv) (samples : List Json) (t : Ty)
+    (hs : ∀ v ∈ samples, keysOk v = true) (h : generate cfg o samples = .ok t) :
+    optimize cfg e (Ty.fuelFor t) t = .ok t :=
+  optimize_idem_fuelFor cfg e t (generate_nfc cfg o samples t hs h)
+
+set_option linter.unusedSimpArgs false in
+theorem exRaw_rawK : rawK exCfg exRaw = true := by
+  simp +decide [rawK, rawKList, rawKFields, exRaw, exCfg, nodupStr, litStable, insertUniq]
+
+/-- non-vacuity of `keysOk` -/
+example : keysOk (.obj [("a", .arr [.obj [("x", .int 1)], .obj [("x", .null), ("y", .str "s")]]),
+                        ("b", .obj [])]) = true := by decide
+
+/-- the corner case of the task description: `[{"a": []}, {"a": [null]}]`-like data. The merged field is
+    `Union[List[Unknown], List[None]]`; the repaired `_optimize_union` gives `List[Optional[Unknown]]`
+    (the original code produced `Optional[Union[]]` here), which `nf`/`nfc` accept: `unknown` directly under
+    `Optional` is allowed exactly for this result. -/
+def exEmptyNull : Ty := .union [.list .unknown, .list .null]
+
+set_option linter.unusedSimpArgs false in
+example : Raw exCfg exEmptyNull = true ∧ rawK exCfg exEmptyNull = true := by
+  simp +decide [Raw, rawF, rawD, rawDList, rawK, rawKList, exEmptyNull, exCfg, unionShape, nodupStr, hashStr,
+    Ty.isBadLit, Ty.isUnion, Ty.isLit]
+
+set_option linter.unusedSimpArgs false in
+/-- the model's first pass on it (any environment would do, `anyEnv` is a concrete one) -/
+example : optimize exCfg anyEnv 6 exEmptyNull = .ok (.list (.opt .unknown)) := by
+  simp +decide [exEmptyNull, optimize, optimizeUnion_eq, splitMembers, exCfg, stageMerge, stageInt, stageStr,
+    stageList, stageDict, finishOpt, mkUnion, mkUnionMembers, flattenUnion, handleType, hashStr, removeFirst,
+    Ty.isStr, Ty.isInt, Ty.isFloat, Ty.isUnknown, Ty.isNull, bind, Except.bind, pure, Except.pure]
+
+example : nfc exCfg (.list (.opt .unknown)) = true := by decide
 
 end J2M.C08
